@@ -89,7 +89,7 @@ func c05Rebind(i int64, seed uint64, r *fw.Rec) {
 // scope it is read and however much work lies between two readings.
 func c05Clock(i int64, seed uint64, r *fw.Rec) {
 	rr := prng.New(seed, 0xC05F, uint64(i))
-	work := rr.Range(40000, 120000)
+	work := rr.Range(20000, 60000)
 	prog := fmt.Sprintf(`[($a := $millis(); $a), ($sum([1..%d]); $millis()), function(){$toMillis($now())}(), $map([1, 2], function($v){($sum([1..%d]); $millis())})[1], {"k": ($millis())}.k, [1].($sum([1..%d]); $toMillis($now()))]`, work, work/2, work/2)
 	r.Begin(prog, "")
 	r.Tag("clock-constant-within-an-evaluation")
